@@ -256,7 +256,7 @@ func genBundle(g *Gen, o BundleOpts) *Bundle {
 	if o.Scenario == "relative-path-two-bases" || o.Scenario == "root-named-aux" || o.Scenario == "two-spellings" {
 		nAux = 0 // the scenario brings its own auxiliary documents
 	}
-	if nAux == 0 && o.MaxAux > 0 && (o.Scenario == "empty-mangled-names" || o.Scenario == "generated-name-equals-imported" || o.Scenario == "collide-sibling-refs") {
+	if nAux == 0 && o.MaxAux > 0 && (o.Scenario == "empty-mangled-names" || o.Scenario == "generated-name-equals-imported" || o.Scenario == "collide-sibling-refs" || o.Scenario == "alias-named-like-generated") {
 		nAux = 1
 	}
 	perm := g.r.Perm(len(auxPathPool))
@@ -1249,6 +1249,22 @@ func (b *bgen) injectScenario(name string, rootDefs, paths M, aux map[string]M, 
 			paths["/scn/spell2"] = M{"get": resp(M{"$ref": "#/definitions/spellHolder"})}
 		}
 		g.hit("scenario:two-spellings")
+	case "alias-named-like-generated":
+		// a root definition whose *name* reads like a generated one (it contains "OAIGen") and which is nothing but a $ref to a
+		// definition of an auxiliary document: it must survive under its own name
+		if len(b.auxPaths) == 0 {
+			return
+		}
+		ap := b.auxPaths[0]
+		aux[ap]["definitions"].(M)["aliasTarget"] = M{"type": "object", "properties": M{"v": M{"type": "string"}}}
+		an := g.pick([]string{"myOAIGen", "OAIGenThing", "pet OAIGen 2"})
+		rootDefs[an] = M{"$ref": relRef("", ap) + "#/definitions/aliasTarget"}
+		paths["/scn/alias-gen"] = M{"get": resp(M{"$ref": "#/definitions/" + urlFragEscape(jsonPtrEscape(an))})}
+		if g.p(0.5) {
+			rootDefs["aliasUser"] = M{"type": "object", "properties": M{"a": M{"$ref": "#/definitions/" + urlFragEscape(jsonPtrEscape(an))}}}
+			paths["/scn/alias-gen-user"] = M{"get": resp(M{"$ref": "#/definitions/aliasUser"})}
+		}
+		g.hit("scenario:alias-named-like-generated")
 	case "unused-chain":
 		// definitions that become unused only after another one is removed, through names that need escaping
 		if g.p(0.5) {
